@@ -39,6 +39,11 @@ CLAIMED = {
     technique="deterministic simulation of the persist/restart/reload cycle across hash epochs: generated typed documents parsed, printed, re-parsed under fresh hasher keys and re-printed; field-wise comparison with the lossless reader via an independent reference relation reader; structurally invalid variants must be rejected",
     text="Each generated typed document goes through value -> text -> (new hasher keys) -> value -> text; values and prints must agree, the typed fields must carry what the lossless reader shows for the same text (relation fields compared structurally with a reference reader), and structurally invalid variants (no/two source paragraphs, paragraph of neither kind, missing mandatory field) must be rejected.",
     note="Trusted: field tables and generators (gen/typed.rs), the reference relation reader. Rejection of well-formed input is counted, not judged (that is C03/C10)."),
+
+ "C15": dict(level="exploration", ref="DESIGN.md §2 C15",
+    technique="deterministic simulation of accessor sessions: seeded schedules of view creation (aliasing views of one paragraph), setter / clearing-setter / getter calls from a 168-row accessor table and restarts; oracle = reference codecs + C04 list model + locality diff + strict re-read",
+    text="Views of control, apt, buildinfo, copyright and DEP-3 paragraphs are created as aliases into one tree at scheduled times; setters from the accessor table are called in seeded sequences through one view and read back through every live view and a fresh one; the C04 list model demands exactly one field with the documented name holding the reference encoding (replaced in place or appended, removed when cleared), the locality diff demands that nothing else moves, the printed text must re-read; at the start every getter is compared with the reference reading of the raw field.",
+    note="Trusted: the accessor table (field names, separators, yes/no spelling written from the Debian field definitions) and reference codecs. Changes has one setter and no paragraph access: not covered here."),
 }
 
 NOT_APPLICABLE = {
